@@ -649,6 +649,13 @@ pub fn run_family(family: &str, scn_seed: u64, idx: u64, params: &Params, out: &
                 for l in scn.link.iter_mut() {
                     l.latency_ms = l.latency_ms.min(20);
                 }
+                if params.get("prop") == Some("C05") {
+                    // the ideal-network form: nothing lost, duplicated or reordered
+                    scn.ideal = true;
+                    for l in scn.link.iter_mut() {
+                        l.phases.clear();
+                    }
+                }
                 out.counters.inc("single_packet_huge");
                 if len == 65536 * MAX_FRAGMENT_SIZE {
                     out.counters.inc("single_packet_max_packet_size");
